@@ -183,16 +183,30 @@ class SSeq:
             length = cur().fresh_int(name + '_len', 0, None)
         return cls(arr, length, 0, elem_lo, elem_hi, name)
 
+    def raw_abs(self, p):
+        """array cell p (absolute position), no side effects"""
+        return SInt(z3.Select(self.arr, _z(p)), self.elem_lo, self.elem_hi)
+
     def at(self, k):
-        """element k without bounds check (caller guarantees 0 <= k < length)"""
-        v = SInt(z3.Select(self.arr, _z(self.off + k)), self.elem_lo, self.elem_hi)
+        """element k without bounds check (caller guarantees 0 <= k < length); the
+        element range is added to the path condition and the absolute position is
+        registered as instantiation term for quantified facts about this sequence"""
+        p = self.off + k
+        v = SInt(z3.Select(self.arr, _z(p)), self.elem_lo, self.elem_hi)
         c = cur()
         if c is not None:
             if self.elem_lo is not None:
                 c.assume(v.e >= self.elem_lo, quiet=True)
             if self.elem_hi is not None:
                 c.assume(v.e <= self.elem_hi, quiet=True)
+            c.add_index_term(p)
         return v
+
+    def forall_elems(self, pred, name='elems'):
+        """QForall: pred(element) for every element of this sequence (over absolute positions)"""
+        from .sym import QForall
+        off, n = self.off, self.length
+        return QForall(lambda p: s_or(s_not(s_and(p >= off, p < off + n)), pred(self.raw_abs(p))), name)
 
     def __len__(self):
         raise Unsupported('native len() of symbolic sequence')
@@ -227,11 +241,9 @@ class SSeq:
         raise Unsupported('native iteration over symbolic-length sequence')
 
     def isdigit(self):
-        k = z3.Int(fresh_name('k'))
-        body = z3.Implies(z3.And(k >= 0, k < _z(self.length)),
-                          z3.And(z3.Select(self.arr, _z(self.off) + k) >= 48,
-                                 z3.Select(self.arr, _z(self.off) + k) <= 57))
-        return s_and(self.length > 0, SBool(z3.ForAll([k], body)))
+        from .sym import SQuant
+        raw = lambda k: self.raw_abs(self.off + k)
+        return SQuant(self.length, lambda k: s_and(raw(k) >= 48, raw(k) <= 57), nonempty=True, name='isdigit')
 
     def forall(self, pred):
         """SBool: pred(element) for all elements; pred maps SInt -> bool/SBool"""
